@@ -17,6 +17,7 @@ namespace sim
    {
       constexpr unsigned USER_SITES = ( 1u << SITE_ACTION ) | ( 1u << SITE_SUCCESS_HOOK ) | ( 1u << SITE_FAILURE_HOOK ) | ( 1u << SITE_STATE_CTOR ) | ( 1u << SITE_STATE_SUCCESS );
       constexpr unsigned READER_SITE = ( 1u << SITE_READER );
+      constexpr unsigned ALLOC_SITE = ( 1u << SITE_ALLOC );
 
       unsigned chunk_of( SetId s )
       {
@@ -92,6 +93,9 @@ namespace sim
          if( sub == 3 || sub == 7 ) {
             j.set = pick_buffer_set( r, thorough );
             p.site_mask |= READER_SITE;
+         }
+         if( sub == 2 || sub == 6 ) {
+            p.site_mask |= ALLOC_SITE;  // allocation failures inside the library (parse_error strings, sub-inputs)
          }
       }
       else if( check == "C08" ) {
@@ -178,6 +182,9 @@ namespace sim
          if( sub >= 4 ) {
             p.max_faults = 3;
             p.site_mask = ( 1u << SITE_ACTION ) | ( 1u << SITE_SUCCESS_HOOK ) | ( 1u << SITE_FAILURE_HOOK );
+            if( sub >= 6 ) {
+               p.site_mask |= ALLOC_SITE;  // failing node / vector allocations inside the tree builder's own handlers
+            }
          }
       }
       p.caps = set_capabilities( j.set );
